@@ -122,15 +122,16 @@ type c07 struct {
 // record checks the global "no two different committed-field tuples share a commitment" monitor.
 func (m *c07) record(kind string, commitment []byte, canon string, witness any) {
 	k := kind + string(commitment)
+	digest := string(sha([]byte(canon))) // the map keeps a digest of the committed fields, not the fields themselves
 	if prev, ok := m.seen[k]; ok {
-		if prev != canon {
+		if prev != digest {
 			m.c.Violate("C07|collision|"+kind, "two generated "+kind+" values with different committed fields share a commitment",
-				map[string]any{"commitment": hex.EncodeToString(commitment), "a": hex.EncodeToString([]byte(prev)), "b": hex.EncodeToString([]byte(canon)), "b_value": witness})
+				map[string]any{"commitment": hex.EncodeToString(commitment), "b_committed_fields": hex.EncodeToString([]byte(canon)), "b_value": witness})
 		}
 		return
 	}
-	if len(m.seen) < 400000 {
-		m.seen[k] = canon
+	if len(m.seen) < 1500000 {
+		m.seen[k] = digest
 	}
 }
 
